@@ -50,6 +50,7 @@ GATES = {
     "op-contracts-ran": ["op_checksig", "op_checkmultisig", "op_checksig_schnorr", "op_checksigadd_schnorr"],
     "evaluate-rules": ["rule:p2sh", "rule:p2wpkh", "rule:p2wsh", "rule:p2tr-key", "rule:p2tr-script"],
     "in-place-histories": ["history:in-place-edit-then-verify"],
+    "key-object-flags": ["pos:segwit-v0-with-uncompressed-key-object"],
     "keyless-attacker-fuzz": ["keyless:" + k for k in KINDS] + ["keyless:analyser-proved"],
     "shape-confusion-negatives-proved": ["negcls:witness-program-shape-in-scriptsig", "negcls:undefined-sighash-byte"],
 }
@@ -240,12 +241,16 @@ def build_signed(rng, kind, small):
         meta["secrets"] = [priv.secret]
         ok = tx.sign_p2pkh(index, priv)
     elif kind == "p2wpkh":
-        priv = keys(1)[0]
+        # the key OBJECT may carry compressed=False (parsed from an uncompressed WIF): the output still commits to the
+        # compressed key (BIP143 keys are compressed), so the spend has to use that encoding
+        priv = PrivateKey(rng.randrange(1, ec.N), compressed=rng.random() < 0.5)
+        meta["key_object_uncompressed"] = not priv.compressed
         tx = finish(priv.point.p2wpkh_script())
         meta["secrets"] = [priv.secret]
         ok = tx.sign_p2wpkh(index, priv)
     elif kind == "p2sh-p2wpkh":
-        priv = keys(1)[0]
+        priv = PrivateKey(rng.randrange(1, ec.N), compressed=rng.random() < 0.5)
+        meta["key_object_uncompressed"] = not priv.compressed
         redeem = priv.point.p2sh_p2wpkh_redeem_script()
         tx = finish(redeem.script_pubkey())
         meta["secrets"] = [priv.secret]
@@ -870,6 +875,8 @@ def one_job(ctx, rng, kind):
         ctx.violation(f"library-signed-spend-not-authorised:{kind}", f"analyser: {info}", case)
         return
     ctx.count("pos:" + kind)
+    if meta.get("key_object_uncompressed"):
+        ctx.count("pos:segwit-v0-with-uncompressed-key-object")
     note_rule(ctx, kind)
     v = lib_verify(model, spent, index)
     ctx.monitor("verify_input-positive")
